@@ -68,6 +68,7 @@ MUTANTS = [
     M("c15-inverse-no-conj", "C15", (CX, "    return z_star / denominator", "    return z / denominator")),
     M("c15-alias-guard-removed", "C15", (CX, "    if out is not None and (\n        out is x or out is y or _memory_overlaps(out, x) or _memory_overlaps(out, y)\n    ):",
                                           "    if False:")),
+    M("c04-f13-regression", "C04", (UN, "                else torch.tensor(matrix, dtype=torch.double)\n", "                else torch.tensor(matrix)\n")),
     M("c15-f12-regression", "C15", (CX, "        out is x or out is y or _memory_overlaps(out, x) or _memory_overlaps(out, y)\n", "        out is x or out is y\n")),
     M("c15-overlap-start-only", "C15", (CX, "    return a_lo < b_hi and b_lo < a_hi", "    return a_lo == b_lo")),
     M("c15-outer-no-conj", "C15", (CX, "z[1] = torch.ger(real(x), -imag(y)) + torch.ger(imag(x), real(y))",
